@@ -4,6 +4,7 @@
   than the wire limits themselves.
 -/
 import Rl2tp.Proofs.Control
+import Rl2tp.Proofs.GenKinds
 namespace Rl2tp.C03
 
 /-- the encodable domain is decidable and is what the statement quantifies over:
@@ -75,5 +76,14 @@ example : (AVP.messageType .startControlConnectionRequest).Encodable ∧ (AVP.pr
 example (v : Bytes) (h : v.length = 1017) : (AVP.challenge v).Encodable :=
   ⟨by cases v <;> simp_all [AVP.wf], by simp [AVP.value]; omega⟩
 example : ¬ (AVP.hostName []).Encodable := by decide
+
+/-! ### the attribute numbers as the source has them now (re-read by bin/gentables on every run) -/
+
+/-- each kind's own `ATTRIBUTE_TYPE` constant — what its writer emits — is the number the source's dispatch decodes
+    that kind under, and it is the number the model's writer emits for the kind of that name -/
+theorem source_attribute_numbers :
+    Gen.typeConstants.map (fun r => (r.1, r.2.1)) = Gen.dispatch ∧
+    ∀ r ∈ Gen.typeConstants, (GenKinds.sampleAvp r.1).map (fun a => (Text.kindName a, a.attr.toNat)) = some (r.2.1, r.1) :=
+  ⟨GenKinds.type_constants_match_dispatch, GenKinds.writer_attr_is_model⟩
 
 end Rl2tp.C03
